@@ -276,12 +276,20 @@ func (fx *Fx) staticCall(st *State, fn *types.Func, recvExpr ast.Expr, call *ast
 	var recv *Val
 	if recvExpr != nil {
 		rp := fx.evalPlace(st, recvExpr, spec)
+		rp = fx.embeddedReceiver(st, rp, call, spec)
 		rv := fx.receiverValue(st, rp, sig, exprText(recvExpr), spec)
 		recv = &rv
 	}
 	var args []Val
-	for _, a := range call.Args {
-		args = append(args, fx.eval(st, a, spec))
+	if len(call.Args) == 1 && sig.Params().Len() > 1 {
+		if inner, ok := ast.Unparen(call.Args[0]).(*ast.CallExpr); ok {
+			args = fx.evalCall(st, inner, spec)
+		}
+	}
+	if args == nil {
+		for _, a := range call.Args {
+			args = append(args, fx.eval(st, a, spec))
+		}
 	}
 	if sig.Variadic() && !call.Ellipsis.IsValid() {
 		args = fx.packVariadic(st, sig, args)
@@ -303,6 +311,19 @@ func (fx *Fx) packVariadic(st *State, sig *types.Signature, args []Val) []Val {
 	}
 	packed := Val{T: vt, S: ss, X: app("mk_"+ss, arr, fmt.Sprint(len(args)-n))}
 	return append(append([]Val(nil), args[:n]...), packed)
+}
+
+// embeddedReceiver follows the embedded-field path of a promoted method call.
+func (fx *Fx) embeddedReceiver(st *State, rp Place, call *ast.CallExpr, spec bool) Place {
+	se, ok := ast.Unparen(call.Fun).(*ast.SelectorExpr)
+	if !ok {
+		return rp
+	}
+	sel, ok := fx.pkg.info.Selections[se]
+	if !ok || len(sel.Index()) <= 1 {
+		return rp
+	}
+	return fx.walkFields(st, rp, sel.Recv(), sel.Index()[:len(sel.Index())-1], exprText(se.X), spec)
 }
 
 // receiverValue adapts the receiver expression to the method's receiver type (auto address / deref).
@@ -856,6 +877,13 @@ func (fx *Fx) specBuiltin(st *State, call *ast.CallExpr) ([]Val, bool) {
 			return []Val{a}, true
 		}
 		return []Val{{S: SReal, X: app("to_real", a.X)}}, true
+	case "zeroelem":
+		a := fx.eval(st, call.Args[0], true)
+		et := elemType(a.T)
+		if et == nil {
+			panic(unsupported("zeroelem of untyped sequence"))
+		}
+		return []Val{{T: et, S: fx.d.sortOf(et), X: fx.d.zeroOf(et)}}, true
 	case "trunc":
 		a := fx.eval(st, call.Args[0], true)
 		return intV(ite(app(">=", a.X, "0.0"), app("to_int", a.X), app("-", app("to_int", app("-", a.X))))), true
